@@ -44,6 +44,9 @@ def jobs(tier):
         mk('C15', 'after_timeout', after_timeout(), witnesses=W),
         mk('C15', 'recur/await', recur_idle('await')),
         mk('C15', 'x2/other_fresh', S.two_bus_await('other_fresh', ('A', 'B'), yield_first=False), witnesses=W),
+        mk('C15', 'idle_other_bus/AB', S.idle_other_bus(('A', 'B')), witnesses=W),
+        mk('C15', 'idle_other_bus/BA', S.idle_other_bus(('B', 'A')), witnesses=W),
+        mk('C15', 'flood_idle', S.flood_idle(), witnesses=W),
     ]
     if tier == 'thorough':
         out += [
